@@ -193,6 +193,7 @@ Verdict(ln) ==
 \cup (IF C06_AtMostOne(ln) THEN {} ELSE {"C06_AtMostOne"})
 \cup (IF C08_Inv(NormState(ln.final)) /\ C12_Inv(NormState(ln.final)) THEN {} ELSE {"FinalInvariants"})
 \cup (IF C08_Inv(NormState(ln.final)) /\ C09_Inv(NormState(ln.final)) THEN {} ELSE {"C08_FinalRefIntegrity"})
+\cup (IF C12_Inv(NormState(ln.final)) THEN {} ELSE {"C12_FinalConsumers"})
 
 Init == i = 1
 Next == /\ i <= Len(Log)
